@@ -1,4 +1,5 @@
 CONSTANT MaxDepth = 2
+CONSTANT AllowInvalid = FALSE
 INIT Init
 NEXT Next
 INVARIANT EmitCase
